@@ -15,12 +15,18 @@ The model line handed to the driver carries, per operation, `hops + lag(kind)`: 
 API wrapper spends before the port method runs (0 for patch_port_sequence, 1 for patch_port, which runs each setter in
 a task of its own). If the default does not fit, other lags 0..3 are tried (a harmless extra await in the wrappers must
 not alarm); what fits is kept and tagged `lag-shift`.
+Storage faults: some ports are PERSISTED (attribute `persisted`), the hub's save loop runs, and the persistence layer
+(harness/persist_c19.py, the repository's JSON driver behind `settings.persist.driver`) fails ONE write - or every write
+during an outage - at scripted instants, mostly the instant a finite sequence ends.  Nothing changes for the oracle or
+the model: storing the port is not part of playing a sequence (a failed save is retried by the save loop), so the
+schedule, "no active sequence" at the end, and the acceptance of every later request must hold as without faults; after
+the window a probe request (empty sequence through the API) must be answered as the port's state demands.
 """
 import asyncio
 import itertools
 import logging
 
-from harness import vloop
+from harness import persist_c19, vloop
 from harness.core import Failure, Prop
 
 HOPS_MAX = 4
@@ -76,12 +82,16 @@ class C19(Prop):
             'enable, refused requests: length mismatch, out-of-domain value, malformed body), each at an instant drawn '
             'mostly from the predicted firing instants of the running sequence (incl. re-arm and finish instants, +-1 ms), '
             'placed before or after the sequence\'s own timer and 0..4 loop iterations later; delays incl. 0 and '
-            'negative, repeat incl. 0 (infinite), 1 and negative; a case is non-trivial when a running sequence was '
+            'negative, repeat incl. 0 (infinite), 1 and negative; 30 % of the ports are persisted (the save loop runs, '
+            'period 100 ms) and most of those get 1-2 storage faults - one failing write or an outage of 1-150 ms - armed '
+            'at the predicted end instant of a finite sequence (or shortly before / at a random instant), never across '
+            'an expression / enable request, whose own save would report the fault; a case is non-trivial when a running sequence was '
             'stopped by an operation or ran to its end; distinct = distinct (submission log, results)')
     CORRESPONDENCE = ('Sequence.iter/exec (loopStep, body, requestCancel, startOp, resumeOp, validate) <-> '
                       'core.sequences.Sequence._loop/cancel, BasePort.set_sequence/attr_set_expression/disable, '
                       'api.funcs.ports.patch_port_sequence')
-    TRUSTED = ['virtual-time event loop (harness/vloop.py) and the sub-resolution timer offsets that order the harness\' '
+    TRUSTED = ['harness/persist_c19.py: the JSON persistence driver of the repository with scripted write faults (OSError)',
+               'virtual-time event loop (harness/vloop.py) and the sub-resolution timer offsets that order the harness\' '
                'calls against the sequence\'s sleep timers; CPython asyncio ready-queue / timer discipline as modelled by '
                'Sequence.iter',
                'BasePort._sequence is read (named by the property\'s anchor) to observe "reports no active sequence"']
@@ -120,8 +130,9 @@ class C19(Prop):
         self.loop._run_once = counted_run_once
         logging.disable(logging.CRITICAL)
         from qtoggleserver.conf import settings
-        settings.persist.driver = 'qtoggleserver.drivers.persist.JSONDriver'
+        settings.persist.driver = 'harness.persist_c19.FaultyJSONDriver'     # the JSON driver + scripted write faults
         settings.persist.file_path = None
+        settings.core.persist_interval = 100        # ms: a failed save is retried within the window of a case
         from qtoggleserver.core import main as core_main  # noqa: F401  (import order: main before ports)
         from qtoggleserver.core import ports as core_ports
         from qtoggleserver.core import api as core_api
@@ -140,8 +151,9 @@ class C19(Prop):
         prop = self
 
         class SeqPort(core_ports.Port):
-            def __init__(self, port_id, type_, writable, integer, min_, max_):
+            def __init__(self, port_id, type_, writable, integer, min_, max_, persisted=False):
                 super().__init__(port_id)
+                self._persisted = bool(persisted)
                 self._type = type_
                 self._writable = writable
                 self._integer = integer
@@ -186,6 +198,8 @@ class C19(Prop):
                 return await super().transform_and_write_value(value)
 
         self.SeqPort = SeqPort
+        # the hub's save loop: stores the ports marked by save_asap(), retries when the storage fails
+        self.loop.run_until_complete(core_ports.init())
         self.level = core_api.ACCESS_LEVEL_ADMIN
         try:
             self.queue_size = int(core_ports.BasePort.WRITE_VALUE_QUEUE_SIZE)
@@ -198,6 +212,10 @@ class C19(Prop):
         return {'dis': list(h.get('dis', [0, False])), 'en': list(h.get('en', [0, False])), 'wlat': case.get('wlat', 0)}
 
     def teardown(self):
+        try:
+            self.loop.run_until_complete(self.core_ports.cleanup())      # stops the save loop
+        except BaseException:
+            pass
         try:
             self.loop.close()
         except Exception:
@@ -252,6 +270,17 @@ class C19(Prop):
                       'ops': [op(0, 1, 0, seq([1, 2, 3, 4, 5, 6], [40, 40, 40, 40, 40, 40], 1))]})
         cases.append({'port': num, 'cap': 30, 'horizon': 600, 'wlat': 60,
                       'ops': [op(0, 1, 0, seq([1, 2, 3], [0, 0, 25], 0)), op(160, -1, 1, seq([11, 12], [0, 0], 3))]})
+        # a persisted port whose storage fails at the very instant a finite sequence ends (seed C19-r3-3): the sequence
+        # is over all the same, and the port takes another sequence / can be disabled
+        for r, end in ((1, 40), (2, 100), (3, 160)):
+            for mode, a, life in (('one', end, 1), ('all', end - 30, 130)):
+                cases.append({'port': num, 'cap': 40, 'horizon': 500, 'persisted': True,
+                              'faults': [{'at': a, 'life': life, 'mode': mode}],
+                              'ops': [op(0, 1, 0, seq([1, 2, 3], [20, 20, 20], r)), op(330, 1, 0, seq([7, 8], [10, 10], 1)),
+                                      op(400, 1, 0, ['en', False])]})
+        cases.append({'port': num, 'cap': 40, 'horizon': 400, 'persisted': True,
+                      'faults': [{'at': 90, 'life': 5, 'mode': 'one'}, {'at': 200, 'life': 150, 'mode': 'all'}],
+                      'ops': [op(0, 1, 0, seq([1, 2], [30, 30], 2)), op(150, -1, 1, seq([11, 12, 13], [25, 25, 25], 1))]})
         # refusals
         cases.append({'port': {'type': 'number', 'writable': False, 'integer': False, 'min': None, 'max': None},
                       'cap': 30, 'horizon': 300, 'ops': [op(0, 1, 0, seq([1], [10], 1)), op(5, 1, 0, seq([1], [], 1))]})
@@ -310,6 +339,7 @@ class C19(Prop):
         nops = rng.choice([1, 2, 2, 3, 3, 4, 5, 6])
         at = 0
         bool_seq_done = False
+        ends = []           # predicted end instants (last value) of the accepted finite sequences
         for j in range(nops):
             if j == 0:
                 at = 0
@@ -387,6 +417,10 @@ class C19(Prop):
                       and not has_expr and all(self._in_domain(port, v) for v in o[1]))
                 if ok:
                     cur = (at, o[2], o[3]) if o[1] else None
+                    if o[1] and o[3] > 0:
+                        e = at + sum(max(o[2][k % len(o[2])], 0) for k in range(o[3] * len(o[2]) - 1))
+                        if e < horizon:
+                            ends.append(e)
                     if port['type'] == 'boolean' and o[1]:
                         bool_seq_done = True
             elif o[0] == 'en':
@@ -398,7 +432,27 @@ class C19(Prop):
             elif o[0] == 'expr' and port['writable']:
                 cur = None
                 has_expr = o[1]
-        return {'port': port, 'cap': cap, 'horizon': horizon, 'ops': ops, 'hooks': hooks, 'wlat': wlat}
+        case = {'port': port, 'cap': cap, 'horizon': horizon, 'ops': ops, 'hooks': hooks, 'wlat': wlat}
+        if port['writable'] and rng.random() < 0.3:
+            # a persisted port; mostly with storage faults, aimed at the instants at which finite sequences end
+            case['persisted'] = True
+            faults = []
+            for _ in range(rng.choice([0, 1, 1, 1, 2])):
+                if ends and rng.random() < 0.75:
+                    e = rng.choice(ends)
+                    a = max(e - rng.choice([0, 0, 0, 1, 10]), 0)
+                    life = (e - a) + rng.choice([1, 1, 5, 30, 150])
+                else:
+                    a = rng.randrange(0, horizon)
+                    life = rng.choice([1, 5, 30, 150])
+                # never across an expression / enable request: its own save would report the fault to the caller
+                lat = max(hooks['dis'][0], hooks['en'][0]) + 1
+                if any(o['op'][0] in ('expr', 'en') and o['at'] <= a + life + 1 and a <= o['at'] + lat for o in ops):
+                    continue
+                faults.append({'at': a, 'life': life, 'mode': rng.choice(['one', 'one', 'all'])})
+            if faults:
+                case['faults'] = faults
+        return case
 
     @staticmethod
     def _in_domain(port, v):
@@ -431,6 +485,16 @@ class C19(Prop):
                 yield {**case, 'ops': ops[:i] + [{**o, 'op': ['seq', v, d, r - 1]}] + ops[i + 1:]}
         if case['cap'] > 12:
             yield {**case, 'cap': 12}
+        faults = case.get('faults') or []
+        if faults:
+            yield {k: v for k, v in case.items() if k != 'faults'}
+            for i in range(len(faults)):
+                if len(faults) > 1:
+                    yield {**case, 'faults': faults[:i] + faults[i + 1:]}
+                if faults[i]['mode'] == 'all':
+                    yield {**case, 'faults': faults[:i] + [{**faults[i], 'mode': 'one'}] + faults[i + 1:]}
+        elif case.get('persisted'):
+            yield {k: v for k, v in case.items() if k != 'persisted'}
 
     # ---------------------------------------------------------------- the real code
     async def _real(self, case):
@@ -440,15 +504,19 @@ class C19(Prop):
         pc = case['port']
         port = (await self.core_ports.load([{'driver': self.SeqPort, 'port_id': pid, 'type_': pc['type'],
                                              'writable': pc['writable'], 'integer': pc['integer'] or None,
-                                             'min_': pc['min'], 'max_': pc['max']}]))[0]
+                                             'min_': pc['min'], 'max_': pc['max'],
+                                             'persisted': bool(case.get('persisted'))}]))[0]
         await port.enable()
+        persist_c19.reset()
+        if case.get('persisted'):
+            await port.save()            # the port is in the store, nothing is waiting to be saved
         tasks_before = set(asyncio.all_tasks())
         await asyncio.sleep(0.01)
         for _ in range(3):
             await asyncio.sleep(0)
         t0 = loop.time()
         obs = {'subs': [], 'writes': [], 'writes_all': [], 'rets': {}, 'frozen': False, 'active': None, 'enabled': None, 'expr': None,
-               'stop_ms': None, 'errors': [], 'stalled': False}
+               'stop_ms': None, 'errors': [], 'stalled': False, 'probe': None, 'faults_fired': 0}
         done = loop.create_future()
         tasks = []
         handles = []
@@ -539,8 +607,17 @@ class C19(Prop):
 
         for idx, o in enumerate(case['ops']):
             handles.append(loop.call_at(t0 + o['at'] / 1000.0 + o['rank'] * self.res / 4, hop, o['hops'], idx, o['op']))
+        def arm(mode):
+            if not obs['frozen']:
+                persist_c19.arm(mode)
+
+        for f in case.get('faults') or []:       # armed before / disarmed behind everything else of those instants
+            handles.append(loop.call_at(t0 + f['at'] / 1000.0 - 3 * self.res / 8, arm, f['mode']))
+            handles.append(loop.call_at(t0 + (f['at'] + f['life']) / 1000.0 + 3 * self.res / 8, persist_c19.disarm))
         handles.append(loop.call_at(t0 + case['horizon'] / 1000.0 + 2 * self.res / 4, freeze))
         await done
+        persist_c19.disarm()                     # the storage works again
+        obs['faults_fired'] = persist_c19.STATE['fired']
         # ---- clean up (no submission / result is recorded any more; the driver log `writes_all` goes on)
         for h in handles:
             h.cancel()
@@ -550,6 +627,25 @@ class C19(Prop):
             if not t.done():
                 t.cancel()
         port.c19_script = {'dis': [0, False], 'en': [0, False], 'wlat': port.c19_script['wlat']}
+        if case.get('faults'):
+            # life goes on: the port answers a request to clear its sequence as its state demands, and can be disabled
+            probe = {}
+            try:
+                await self.api_ports.patch_port_sequence(FakeHandler(self.level), pid,
+                                                         {'values': [], 'delays': [], 'repeat': 0})
+                probe['seq'] = 'ok'
+            except self.core_api.APIError as e:
+                probe['seq'] = e.code if e.status == 400 else f'{e.status}:{e.code}'
+            except BaseException as e:      # noqa
+                probe['seq'] = 'exception:' + type(e).__name__
+            probe['active'] = getattr(port, '_sequence', None) is not None
+            if port.is_enabled():
+                try:
+                    await port.disable()
+                    probe['disable'] = 'ok' if not port.is_enabled() else 'still-enabled'
+                except BaseException as e:      # noqa
+                    probe['disable'] = 'exception:' + type(e).__name__
+            obs['probe'] = probe
         try:
             await port.set_sequence([], [], 0)
         except BaseException:       # the unrepaired code raises CancelledError from a stuck sequence
@@ -701,6 +797,13 @@ class C19(Prop):
                                        f'with only {len(obs["subs"])} values submitted (a sequence without positive '
                                        f'delays submits a value every other iteration)'), tags
         sc = self._script(case)
+        faults = case.get('faults') or []       # storage faults: nothing below depends on them
+        if case.get('persisted'):
+            tags.add('persisted')
+        if faults:
+            tags.add('storage-fault-armed')
+            if obs.get('faults_fired'):
+                tags.add('storage-fault-fired')
         hook_ends = []      # (time, flag value to restore) of driver hooks that will raise
         ambiguous_end = False
         for i in ops:
@@ -713,6 +816,10 @@ class C19(Prop):
                 enabled = back
                 hook_ends.remove((t, back))
             ret = obs['rets'].get(i)
+            if faults and op[0] in ('en', 'expr') and ret is not None and ret[0] == 'exception:OSError':
+                # the request's own save met the fault and reported it to the caller: not the property's business
+                tags.add('storage-fault-reported-by-api')
+                return None, tags
             if op[0] == 'en':
                 # the stop instant is the instant disable() is handled, not the instant it returns: the driver's
                 # handle_disable() is awaited behind it and may take long or raise
@@ -856,6 +963,8 @@ class C19(Prop):
                 total = passes * n
                 if passes and len(sched) == total and len(gotv) == total and sched[-1][0] < stop and not by_cap:
                     tags.add('ran-to-end')
+                    if any(f['at'] <= sched[-1][0] <= f['at'] + f['life'] for f in faults):
+                        tags.add('storage-fault-at-sequence-end')
                     if obs['active']:
                         return Failure('property', f'sequence #{q["idx"]} has submitted all {total} values but the port '
                                                    f'still reports an active sequence'), tags
@@ -868,6 +977,20 @@ class C19(Prop):
             return Failure('property', 'no sequence should be active but the port reports one'), tags
         if obs['enabled'] != enabled and not by_cap and not ambiguous_end:
             return Failure('property', f'port enabled={obs["enabled"]} but the operations say {enabled}'), tags
+        # life goes on behind the window (asked only in cases with storage faults, with the storage working again)
+        probe = obs.get('probe')
+        if probe and not by_cap and not ambiguous_end and len(obs['rets']) == len(case['ops']):
+            want = ('port-disabled' if not obs['enabled'] else 'read-only-port' if not pc['writable'] else
+                    'port-with-expression' if obs['expr'] else 'ok')
+            tags.add('probe:' + want)
+            if probe['seq'] != want:
+                return Failure('property', f'behind the window a request to clear the sequence was answered '
+                                           f'{probe["seq"]}; the port (enabled={obs["enabled"]}, expression={obs["expr"]}) '
+                                           f'should answer {want}'), tags
+            if want == 'ok' and probe['active']:
+                return Failure('property', 'the port reports an active sequence after its sequence has been cleared'), tags
+            if probe.get('disable', 'ok') != 'ok':
+                return Failure('property', f'the port cannot be disabled behind the window: {probe["disable"]}'), tags
         # The driver-side half: the hub WRITES the values. Every value that was submitted reaches write_value(), in the
         # order of submission, however slow the driver is (delays are not checked on this side: the lag between
         # submission and driver is C14's; its theorem `write_order` (Props/C14.lean) — what has entered the driver,
